@@ -16,6 +16,7 @@ pub struct TcpHeader {
     window_size: u16, // Window size
     checksum: u16,    // Checksum for integrity
     urgent: u16,      // Urgent pointer
+    options: Vec<u8>, // Options (data offset > 5)
 }
 
 impl From<&TcpHeader> for Vec<u8> {
@@ -30,6 +31,7 @@ impl From<&TcpHeader> for Vec<u8> {
         bytes.extend_from_slice(&hdr.window_size.to_be_bytes());
         bytes.extend_from_slice(&hdr.checksum.to_be_bytes());
         bytes.extend_from_slice(&hdr.urgent.to_be_bytes());
+        bytes.extend_from_slice(&hdr.options);
         bytes
     }
 }
@@ -87,6 +89,13 @@ impl Tcp {
             rawdata[off + 11],
         ]);
         let data_off = rawdata[off + 12] >> 4;
+        // The data offset gives the header length including options; the options must fit in
+        // the captured bytes and the payload never starts inside the fixed header
+        let header_len = std::cmp::max(data_off as usize * 4, TCP_HEADER_SIZE);
+        if rawdata.len() < off + header_len {
+            return Err(PacketError::InvalidLength(rawdata.len()));
+        }
+        let options = rawdata[off + TCP_HEADER_SIZE..off + header_len].to_vec();
         let flags = u16::from_be_bytes([rawdata[off + 12], rawdata[off + 13]]) & 0x0FFF;
         let window_size = u16::from_be_bytes([rawdata[off + 14], rawdata[off + 15]]);
         let checksum = u16::from_be_bytes([rawdata[off + 16], rawdata[off + 17]]);
@@ -102,12 +111,13 @@ impl Tcp {
             window_size,
             checksum,
             urgent,
+            options,
         });
 
         Ok(Self {
             header,
             rawdata: RefCell::new(rawdata),
-            offset: off + TCP_HEADER_SIZE,
+            offset: off + header_len,
             inner: RefCell::new(None),
         })
     }
